@@ -77,6 +77,35 @@ def heading_schema_ok(ck: Check, headings: list[str]) -> None:
                 {"headings": headings})
 
 
+def external_schema_ok(ck: Check, names: list[str], rng) -> None:
+    """the external schema loader anchors every field with the cleaned NAME (whatever the description cell holds, also nothing)"""
+    import io as _io
+    from pathlib import Path
+    import csv as _csv
+    from jsonschema import Draft202012Validator
+    from stingray.schema_instance import SchemaMaker
+    from stingray.workbook import CSV_Workbook, ExternalSchemaLoader, name_cleaner
+
+    ck.oracle_evaluations += 1
+    buf = _io.StringIO()
+    descs = [rng.choice(["", "the " + n[:5], "Total (USD)", n]) for n in names]
+    _csv.writer(buf).writerows([[n, d, "string"] for n, d in zip(names, descs)])
+    buf.seek(0)
+    inp = {"names": names, "descriptions": descs}
+    try:
+        wb = CSV_Workbook(Path("ext_schema.csv"), file_object=buf)
+        sheet = wb.sheet("").set_schema(SchemaMaker.from_json(ExternalSchemaLoader.META_SCHEMA))
+        doc = ExternalSchemaLoader(sheet).load()
+        Draft202012Validator.check_schema(doc)
+        for n in names:
+            a = doc["properties"][n]["$anchor"]
+            if not ANCHOR.match(a) or a != name_cleaner(n):
+                ck.fail("external-schema-anchor", f"external schema: field {n!r} gets anchor {a!r}; its cleaned name is {name_cleaner(n)!r}", inp)
+                return
+    except BaseException as ex:  # noqa: BLE001
+        ck.fail("external-schema-anchor", f"external schema for names {names!r}: {type(ex).__name__}: {str(ex)[:100]}", inp)
+
+
 def random_unicode(rng, n: int) -> str:
     out = []
     for _ in range(n):
@@ -116,6 +145,10 @@ def explore(ck: Check, max_len: int, n_random: int) -> None:
         hs = [h for h in {rng.choice(strings) for _ in range(rng.randint(1, 5))} if h]
         if hs:
             heading_schema_ok(ck, hs)
+            if i % 4 == 0:
+                es = [h for h in hs if "\n" not in h and "\r" not in h and h.strip()]     # (one name per physical CSV row)
+                if es:
+                    external_schema_ok(ck, es, rng)
     for s in ["Not a 'good' name", "a\nb", random_unicode(rng, 8)]:
         ck.sample({"name": s, "cleaned_codepoints": impl_clean(s)})
 
